@@ -171,7 +171,9 @@ class ModeController(MpfController):
     def _player_added(cls, player, num, **kwargs):
         del num
         del kwargs
-        player.restart_modes_on_next_ball = list()
+        # the player may already have started a ball (see _ball_starting); do not drop what was recorded since
+        if not player.restart_modes_on_next_ball:
+            player.restart_modes_on_next_ball = list()
         '''player_var: restart_modes_on_next_ball
 
         desc: A list of modes that will be restarted when this player's next
@@ -197,7 +199,9 @@ class ModeController(MpfController):
     def _ball_starting(self, queue, **kwargs):
         del kwargs
         del queue
-        for mode in self.machine.game.player.restart_modes_on_next_ball:
+        # a player who joined while a player_adding handler still holds its queue can be up before player_added
+        # has been posted; the player variable then still has its default (0)
+        for mode in self.machine.game.player.restart_modes_on_next_ball or []:
             self.debug_log("Restarting mode %s based on 'restart_on_next_ball"
                            "' setting", mode)
 
